@@ -63,6 +63,23 @@ func genC20(t *rapid.T) *c20Case {
 	case "sentinel":
 		c.Opts.Lossless = false
 		c.Opts.TargetSize, c.Opts.TargetPSNRBits = 0, 0
+		if rapid.IntRange(0, 2).Draw(t, "sentinelTarget") == 0 {
+			// a sentinel stands for its default under rate control too: a picture large and busy enough for the
+			// quality search to need several passes, with a size or PSNR target
+			w, h := rapid.IntRange(48, 128).Draw(t, "stW"), rapid.IntRange(48, 128).Draw(t, "stH")
+			content := rapid.SampledFrom([]string{"photo", "photo", "noise", "regions", "gradient"}).Draw(t, "stContent")
+			c.Img = &gen.Img{W: w, H: h, Kind: "nrgba", Place: "tight", Content: content, Alpha: "opaque"}
+			c.Img.Pix = gen.RenderContent(w, h, content, "opaque", rapid.Uint64().Draw(t, "stSeed"))
+			c.Img.Recount()
+			if rapid.Bool().Draw(t, "stSize") {
+				c.Opts.TargetSize = rapid.SampledFrom([]int{300, 800, 1500, 4000, 9000, 20000}).Draw(t, "stTargetSize")
+			} else {
+				c.Opts.TargetPSNRBits = math.Float32bits(float32(rapid.IntRange(24, 46).Draw(t, "stPSNR")))
+			}
+			if c.Opts.Method > 4 {
+				c.Opts.Method = 4
+			}
+		}
 		c.Field = rapid.SampledFrom([]string{"SNSStrength", "FilterStrength", "FilterType", "Segments", "Pass", "QMax", "AlphaCompression", "AlphaFiltering", "AlphaQuality"}).Draw(t, "sfield")
 		vals := []int{-1, -2, -100, math.MinInt32, math.MinInt}
 		if c.Field == "Segments" || c.Field == "Pass" {
